@@ -431,4 +431,25 @@ theorem unpack_axis_spec (axis : Int) (outShape : List Nat) (hr : outShape.lengt
 example : rewriteUnpackOutput true true (-1) 3 [2, 3] = some ⟨3, [2, 3, 1], [1, 2, 3, 1]⟩ ∧
     rewriteUnpackOutput true true 0 3 [2, 3] = some ⟨1, [1, 2, 3], [1, 1, 2, 3]⟩ ∧ rewriteUnpackOutput true false 0 3 [2, 3] = none := by decide
 
+/-! ## 19. PACK = concatenation of the inputs reshaped with a unit dimension (`unpack_reshape_flat_eq` is the reshape) -/
+
+/-- **Every input is written exactly at its index**: when the rewrite goes through (the assertion holds), input `k` is written at
+    offset `k` of the 4-D axis, the offsets are pairwise distinct and fill `[0, count)` = the OFM dimension at the axis -/
+theorem pack_offsets_spec (axis : Int) (inShape : List Nat) (count : Nat) (ofmShape : List Nat) (u : PackOut)
+    (h : rewritePack axis inShape count ofmShape = some u) :
+    u.offsets = List.range count ∧ (∀ k, k < count → u.offsets[k]? = some k) ∧ u.offsets.Nodup := by
+  unfold rewritePack at h
+  simp only [] at h
+  by_cases hd : pyIndex ofmShape axis ≠ some count
+  · rw [if_pos hd] at h
+    exact absurd h (by simp)
+  · rw [if_neg hd] at h
+    have hu := Option.some.inj h
+    subst hu
+    refine ⟨rfl, ?_, List.nodup_range⟩
+    intro k hk
+    simp [hk]
+
+example : rewritePack (-1) [2, 3] 4 [2, 3, 4] = some ⟨3, [1, 2, 3, 1], [0, 1, 2, 3]⟩ ∧ rewritePack 1 [2, 3] 5 [2, 4, 3] = none := by decide
+
 end VelaVerif.Props.C01Rewrites3
